@@ -98,7 +98,9 @@ def run(prop, tier):
         o = obs1.get(i)
         if o is None or o["load"] != "ok" or not o["describe"]["ok"]:
             continue
-        src2 = o["describe"]["v"] + "\nparse.buildParsers<{ T: CodecT }>();\n"
+        # the root alias is the last declaration of the text (Codec<key>, or a non-colliding variant of it)
+        names = DECL.findall(o["describe"]["v"])
+        src2 = o["describe"]["v"] + "\nparse.buildParsers<{ T: %s }>();\n" % (names[-1] if names else "CodecT")
         c["_src2"] = src2
         reqs2.append(vlib.compile_req(len(reqs2), [("entry.ts", src2)]))
         idx2.append(i)
